@@ -21,7 +21,7 @@ func tilt(name string, mult map[string]int) Profile {
 	for k, m := range mult {
 		w[k] = w[k] * m
 	}
-	return Profile{Name: name, Weights: w, Hostile: 0.18, Extreme: 0.02,
+	return Profile{Name: name, Weights: w, Hostile: 0.18, Extreme: 0.02, Boundary: 0.1,
 		MaxClasses: 14, MaxProjects: 24, MaxBatches: 60, MaxBaskets: 12, MaxOrders: 300, BlockEvery: 5}
 }
 
@@ -30,6 +30,7 @@ func ProfileFor(prop string) Profile {
 	case "C05", "C11":
 		p := tilt("basket-heavy", map[string]int{"put": 4, "take": 4, "basket_create": 2, "update_date_criteria": 4, "bank_send": 3, "create_batch": 2, "sell": 0, "update_sell": 0, "cancel_sell": 0, "buy": 0, "anchor": 0, "attest": 0, "define_resolver": 0, "register_resolver": 0})
 		p.Weights["sell"], p.Weights["buy"], p.Weights["update_sell"], p.Weights["cancel_sell"] = 4, 4, 2, 1
+		p.Boundary = 0.5
 		return p
 	case "C06", "C07", "C12":
 		p := tilt("market-heavy", map[string]int{"sell": 4, "update_sell": 4, "cancel_sell": 3, "buy": 5, "allowed_denom": 3, "fee_params": 3, "fee_pool_send": 2, "anchor": 0, "attest": 0, "define_resolver": 0, "register_resolver": 0})
